@@ -470,7 +470,7 @@ def c06(run):
     for name, c in C06_CONFIGS.items():
         res = lib.run_tlc("MC_C05", gen_cfg(c, faults="Faults", maxlen=c[8] if q else c[9]), coverage=False)
         run.add_tlc("MC_C05(%s + faults)" % name, res)
-        lexh.replay_c06(run, res.lines.get("BEH", []), run.seed, limit=1500 if q else 25000)
+        lexh.replay_c06(run, res.lines.get("BEH", []), run.seed, limit=1100 if q else 25000)
     run.assumptions += ["a fault is demanded to fail only if CMake itself reports a parse error for the faulted file (cmake -P on the "
                         "text wrapped in a never-called function) or it is a backslash before an alphanumeric other than t n r "
                         "(invalid per cmake-language(7)); faults inside comments and bracket arguments are not judged",
